@@ -403,7 +403,17 @@ def hand_built_integer_content(model: Model, run: Run, mr) -> None:
             facts = fl.facts_at.get(id(x), frozenset())
             ok, why = True, ""
             if k is None:
-                # a computed octet count: fine when it is the minimal count (decided by Engine C's to_bytes rule under A1)
+                # a computed octet count: correct exactly when it is the minimal count - the same criterion as Engine C's
+                # to_bytes rule (`k` defined as (v.bit_length() + 7) // 8 for v >= 0), and then only for an unsigned reading,
+                # so INTEGER content additionally needs the value's top bit clear: not decidable from a count picked by
+                # thresholds; reported unless the routine is the two's-complement one itself
+                if isinstance(x.func, ast.Attribute) and x.func.attr == "to_bytes":
+                    okb, whyb = mr.to_bytes_ok(x, facts if (facts := fl.facts_at.get(id(x), frozenset())) is not None else frozenset(), fi)
+                    run.ob("S7-hand-built-integer-content-fits", False if not okb else True, {"function": fi.name, "expression": norm(x)[:60]})
+                    if not okb:
+                        run.fail(Finding("S7-hand-built-integer-content-fits", fq, norm(x)[:80],
+                                         f"{fi.name} builds INTEGER/ENUMERATED content with `{norm(x)[:60]}`, an octet count that is not shown to be the minimal "
+                                         f"two's-complement one ({whyb}); the sign octet is missing for values whose top bit is set", model.loc(fi.module, x)))
                 continue
             if len(vals) != 1 or (len(elems) != k and not isinstance(x.func, ast.Attribute)):
                 ok, why = False, "content assembled from several hand-picked octets"
